@@ -897,10 +897,11 @@ impl Engine for C07 {
             // --- injected file-system faults
             // (a missing TMPDIR is a fault only for an implementation that stages its output
             // there: if the command did not fail, it is held to the ordinary oracle below)
-            let unnoticed = r.req.fs_fault.as_deref() == Some("tmpdir-missing") && !r.outcome.is_err();
+            // (likewise a missing output directory: a command which creates it has not failed)
+            let unnoticed = matches!(r.req.fs_fault.as_deref(), Some("tmpdir-missing" | "outdir-missing")) && !r.outcome.is_err();
             if unnoticed {
-                res.stats.fault("fs.tmpdir-missing");
-                res.stats.probe("tmpdir_missing_not_needed_by_the_command");
+                res.stats.fault(&format!("fs.{}", r.req.fs_fault.as_deref().unwrap_or("")));
+                res.stats.probe("environment_fault_not_a_failure_for_the_command");
             }
             if let Some(ff) = r.req.fs_fault.as_ref().filter(|_| !unnoticed) {
                 res.stats.fault(&format!("fs.{ff}"));
